@@ -7,6 +7,7 @@ import Driver.Audit
 import Driver.Migrate
 import Driver.Canon
 import Driver.DiffReport
+import Driver.Walk
 open Sfw
 
 /-- a suite is a state machine over protocol lines -/
@@ -27,6 +28,7 @@ def dispatch (suite : String) : Option Suite :=
   | "migrate" => some { σ := Sfw.Migrate.JsonDb, init := Sfw.Migrate.JsonDb.empty, step := Driver.migrateStep }
   | "canon" => some { σ := Driver.CanonState, init := Driver.CanonState.init, step := Driver.canonStep }
   | "diffreport" => some (pureSuite Driver.diffReportStep)
+  | "walk" => some (pureSuite Driver.walkStep)
   | "store" => some { σ := Sfw.Store.KV, init := Sfw.Store.init, step := Driver.storeStep }
   | _ => none
 
